@@ -30,6 +30,22 @@ SimEdge g_edgeArena[EDGE_SLOTS];
 const int NODE_CAP = 56, EDGE_CAP = 250;
 const unsigned NOLIB = 0xFFFFFFFFu;
 
+// Triggers of findings.  The trigger of a finding that is still open is generated only in runs whose plan sets its flag
+// (about 1 run in 50); once the finding is fixed in the library its trigger is generated at full rate.
+struct Hazard { const char* flag; bool fixed; };
+const Hazard HAZARDS[] = {
+  {"kSetRoot", true},     // validity verdict cached across setRoot                      (fixed: 01-setroot-invalidates-validity)
+  {"kRecip", true},       // a son linking back to its father counted as a tree          (fixed: 02-istree-reciprocal-link)
+  {"kLeaves", true},      // leaves under a node with a single son                       (fixed: 03-leaves-under-single-son)
+  {"kMrca", true},        // MRCA of nodes at different depths                           (fixed: 04-mrca-unequal-depths)
+  {"kUnrooted", true},    // rootAt on an un-rooted tree                                 (fixed: 05-rootat-unrooted-tree)
+  {"kFreshEdge", true},   // tree addSon/setFather with a new edge object                (fixed: 06-tree-observer-new-edge-object)
+};
+bool hazardOn(const Plan& p, const char* flag) {
+  for (const Hazard& h : HAZARDS) if (std::string(h.flag) == flag && h.fixed) return true;
+  return p.geti(flag) != 0;
+}
+
 int idOf(const NP& p) { return p ? p->id : -1; }
 int idOf(const EP& p) { return p ? p->id : -1; }
 
@@ -142,7 +158,6 @@ template <class Obs> class Base {
 protected:
   const Plan& p; Ctx& ctx; Obs obs; Model m;
   std::map<int, NP> nobj;
-  std::vector<unsigned> freed;       // library edge ids that existed once and are attached to no link now
   int nextNode = 0, nextEdge = 0;
   long stride, off, maxn;
   std::string lastEdit = "none";
@@ -152,7 +167,6 @@ protected:
   bool isDag;
 
   template <class... A> Base(const Plan& pl, Ctx& c, bool dag, A&&... a) : p(pl), ctx(c), obs(std::forward<A>(a)...), isDag(dag) {
-    kEdgeSlots = pl.geti("kEdgeSlots") != 0;
     stride = pl.geti("stride", 1) | 1; off = pl.geti("off", 0); maxn = pl.geti("maxn", dag ? 6 : 12);
     if (stride % NODE_SLOTS != 1) ctx.fault("addr-perm");
   }
@@ -199,14 +213,6 @@ protected:
     std::sort(r.begin(), r.end(), edgeLess);
     return r;
   }
-  void noteFreed(const std::vector<MEdge>& now, bool trust = true) {
-    for (auto& e : m.edges) {
-      if (e.lib == NOLIB || !trust) continue;
-      bool alive = false; for (auto& x : now) if (x.lib == e.lib) alive = true;
-      if (!alive && std::find(freed.begin(), freed.end(), e.lib) == freed.end()) freed.push_back(e.lib);
-    }
-    for (auto& x : now) { auto it = std::find(freed.begin(), freed.end(), x.lib); if (it != freed.end()) freed.erase(it); }
-  }
   // 0 equal; 1 different links; 2 an edge changed identity; 3 an edge carries another object
   int compare(std::vector<MEdge> pred, const std::vector<MEdge>& now, std::string& why) const {
     norm(pred);
@@ -221,7 +227,6 @@ protected:
     std::string why; int c = compare(pred, now, why);
     static const char* K[] = {"", "topology", "edge-identity", "edge-object"};
     if (c) fail(std::string("model-mismatch:") + K[c], std::string("model-mismatch:") + K[c] + ":" + op, "after " + op + ": " + why);
-    noteFreed(now);
     m.edges = now;
     ctx.state(m.fingerprint());
   }
@@ -232,25 +237,10 @@ protected:
     m.nodes.clear(); for (auto& q : all) m.nodes.insert(idOf(q));
     adoptExtra();
     std::vector<MEdge> now = observe(op);
-    noteFreed(now, false);       // ids that vanished in a step the statement does not fix are not reused
     m.edges = now;
     ctx.state(m.fingerprint());
   }
-  // The observer keeps one object slot per edge id it has been told about (link / createNode-from-father / associateEdge);
-  // links made by addSon/setFather/addFather without an object get ids it never hears of.
-  unsigned slots = 0;
-  bool kEdgeSlots = false;
-  void noteSlots(int a, int b) { const MEdge* e = m.directed ? m.find(a, b) : m.findAny(a, b); if (e && e->lib != NOLIB && e->lib + 1 > slots) slots = e->lib + 1; }
-  bool poisoned() const { for (auto& e : m.edges) if (e.lib == slots) return true; return false; }   // known finding: id == number of slots
-  template <class F> void edgeObjectQuery(F f) {
-    bool bad = poisoned();
-    if (bad && !kEdgeSlots) return;
-    try { f(); }
-    catch (std::out_of_range&) {
-      if (!bad) throw;
-      fail("foreign-exception:std:edge-objects-of-unregistered-edge-id", "foreign-exception:std:edge-objects-of-unregistered-edge-id", "a query returning edge objects raised std::out_of_range: a live link made without an edge object has an id equal to the number of edge slots of the observer");
-    }
-  }
+  template <class F> void edgeObjectQuery(F f) { f(); }
   EP edgeLinking(int a, int b) { return obs.getEdgeLinking(nobj[a], nobj[b]); }
   void checkLinkObject(int a, int b, const EP& e, const std::string& op) {
     EP got = edgeLinking(a, b);
@@ -262,16 +252,12 @@ protected:
     return id;
   }
   bool canCreate() const { return static_cast<long>(m.nodes.size()) < maxn && nextNode < NODE_CAP; }
-  // edge object for addSon/setFather/addFather: mode 0 none, 1 object associated with a formerly existing edge id, 2 brand-new object
-  EP prepareEdge(long mode, long sel, unsigned& lib) {
-    lib = NOLIB;
+  // edge object for addSon/setFather/addFather: mode 0 none, 1 an object that is attached to another live link (must be refused), 2 brand-new object
+  EP prepareEdge(long mode, long sel) {
     if (mode == 1) {
-      if (freed.empty()) return EP();
-      EP e = mkEdge(); if (!e) return e;
-      lib = freed[static_cast<size_t>(sel) % freed.size()];
-      obs.associateEdge(e, lib);
-      if (lib + 1 > slots) slots = lib + 1;
-      return e;
+      std::vector<unsigned> c; for (auto& e : m.edges) if (e.obj >= 0) c.push_back(e.lib);
+      if (c.empty()) return EP();
+      return obs.getEdgeFromGraphid(c[static_cast<size_t>(sel) % c.size()]);
     }
     if (mode == 2) return mkEdge();
     return EP();
@@ -285,8 +271,8 @@ class TreeExec : public Base<TreeObs> {
   bool kSetRoot, kMrca, kLeaves, kRecip, kUnrooted, kFreshEdge;
 public:
   TreeExec(const Plan& pl, Ctx& c) : Base<TreeObs>(pl, c, false, true) {
-    kSetRoot = pl.geti("kSetRoot") != 0; kMrca = pl.geti("kMrca") != 0; kLeaves = pl.geti("kLeaves") != 0;
-    kRecip = pl.geti("kRecip") != 0; kUnrooted = pl.geti("kUnrooted") != 0; kFreshEdge = pl.geti("kFreshEdge") != 0;
+    kSetRoot = hazardOn(pl, "kSetRoot"); kMrca = hazardOn(pl, "kMrca"); kLeaves = hazardOn(pl, "kLeaves");
+    kRecip = hazardOn(pl, "kRecip"); kUnrooted = hazardOn(pl, "kUnrooted"); kFreshEdge = hazardOn(pl, "kFreshEdge");
   }
   void adoptExtra() override { m.directed = obs.isRooted(); m.root = idOf(obs.getRoot()); if (!m.nodes.count(m.root)) m.root = -1; }
 
@@ -303,8 +289,8 @@ public:
       return false;
     }
     if ((got == 1) != want) {
-      if (got == 1 && lastEdit == "setroot") fail("model-mismatch:isValid:stale-after-setRoot", "model-mismatch:isValid:stale-after-setRoot", "isValid() is true although the tree does not span all nodes from the root set by setRoot (verdict cached before setRoot)");
       if (got == 1 && m.validIgnoringReciprocal()) fail("model-mismatch:isValid:reciprocal-edge-to-father", "model-mismatch:isValid:reciprocal-edge-to-father", "isValid() is true although a son also links back to its father (two links between the same nodes: not a tree)");
+      if (got == 1 && lastEdit == "setroot") fail("model-mismatch:isValid:stale-after-setRoot", "model-mismatch:isValid:stale-after-setRoot", "isValid() is true although the tree does not span all nodes from the root set by setRoot (verdict cached before setRoot)");
       fail("model-mismatch:isValid", std::string("model-mismatch:isValid:") + (got == 1 ? "true-on-invalid" : "false-on-valid") + ":after-" + lastEdit + (warmBefore ? ":verdict-read-before-edit" : ":no-read-before-edit"), std::string("isValid() = ") + (got == 1 ? "true" : "false") + ", reference says " + (want ? "valid" : "invalid"));
     }
     warm = true; if (got == 1) warmTrue = true;
@@ -437,7 +423,7 @@ public:
     try { obs.getEdgeToFather(nv); } catch (bpp::Exception&) {}
     try { obs.getSons(nv); } catch (bpp::Exception&) {}
     edgeObjectQuery([&] { try { obs.getBranches(nv); } catch (bpp::Exception&) {} });
-    if (m.directed && !m.hasReciprocal()) {      // subtrees have no meaning on an un-rooted tree (and the library recursion does not end there); reciprocal links exist in kRecip runs only
+    if (m.directed) {      // subtrees have no meaning on an un-rooted tree (and the library recursion does not end there)
       try { obs.getSubtreeNodes(nv); } catch (bpp::Exception&) {}
       edgeObjectQuery([&] { try { obs.getSubtreeEdges(nv); } catch (bpp::Exception&) {} });
     }
@@ -480,7 +466,6 @@ public:
   void opRootAt(const Op& o) {
     if (m.nodes.empty()) { ctx.outcome("skip"); return; }
     int v = pick(o.a);
-    if (m.directed && m.hasReciprocal()) { ctx.outcome("skip"); return; }   // only in kRecip runs: the known finding would make the library re-root what it wrongly takes for a tree
     if (o.d & 1) readValid();
     bool valid = m.treeValid();
     if (!valid) {
@@ -568,9 +553,17 @@ public:
     long mode = m.directed ? (o.c & 3) : 0;
     if (mode == 3) mode = 0;
     if (mode == 2 && !kFreshEdge) mode = 0;
-    unsigned lib = NOLIB;
-    EP e = prepareEdge(mode, o.c >> 4, lib);
+    EP e = prepareEdge(mode, o.c >> 4);
     if (!e) mode = 0;
+    if (mode == 1) {
+      // reject@k: the edge object is attached to another live link; the statement does not fix what remains of the call
+      bool r = false;
+      try { if (viaSetFather) obs.setFather(nobj[S], nobj[F], e); else obs.addSon(nobj[F], nobj[S], e); } catch (bpp::Exception&) { r = true; }
+      if (r) ctx.fault("reject@k");
+      adopt(op + "-attached-object"); edited(op + "-attached-object");
+      if (r) ctx.rejected(); else ctx.outcome("silent");
+      return;
+    }
     bool raised = false;
     try { if (viaSetFather) obs.setFather(nobj[S], nobj[F], e); else obs.addSon(nobj[F], nobj[S], e); }
     catch (bpp::Exception&) { raised = true; }
@@ -580,7 +573,7 @@ public:
     }
     std::vector<MEdge> pred;
     for (auto& x : m.edges) if (!(replaces && x.a == fs[0] && x.b == S)) pred.push_back(x);
-    MEdge ne; ne.a = F; ne.b = S; ne.lib = lib; ne.obj = idOf(e); pred.push_back(ne);
+    MEdge ne; ne.a = F; ne.b = S; ne.lib = NOLIB; ne.obj = idOf(e); pred.push_back(ne);
     edited(op);
     sync(pred, op);
     if (m.directed) {
@@ -637,7 +630,7 @@ public:
         obs.createNode(nobj[par], nobj[id], e); obs.setNodeIndex(nobj[id], static_cast<unsigned>(id));
         m.nodes.insert(id);
         std::vector<MEdge> pred = m.edges; MEdge ne; ne.a = par; ne.b = id; ne.lib = NOLIB; ne.obj = idOf(e); pred.push_back(ne);
-        edited("newson"); sync(pred, "newson"); noteSlots(par, id);
+        edited("newson"); sync(pred, "newson");
         if (m.directed) checkLinkObject(par, id, e, "newson");
         ctx.ok();
       });
@@ -652,7 +645,7 @@ public:
         EP e = (o.c & 1) ? mkEdge() : EP();
         obs.link(nobj[A], nobj[B], e);
         std::vector<MEdge> pred = m.edges; MEdge ne; ne.a = A; ne.b = B; ne.lib = NOLIB; ne.obj = idOf(e); pred.push_back(ne);
-        edited("link"); sync(pred, "link"); noteSlots(A, B);
+        edited("link"); sync(pred, "link");
         if (m.directed) checkLinkObject(A, B, e, "link");
         ctx.ok();
       });
@@ -789,15 +782,21 @@ public:
     int F = how == 1 ? B : A, S = how == 1 ? A : B;
     if (m.has(F, S)) { ctx.outcome("skip"); return; }
     long mode = o.c & 3; if (mode == 3) mode = 0;
-    if (how == 2 && mode == 1) mode = 2;
-    unsigned lib = NOLIB;
-    EP e = prepareEdge(mode, o.c >> 4, lib);
+    EP e = prepareEdge(mode, o.c >> 4);
     if (!e) mode = 0;
+    if (mode == 1) {
+      // reject@k: the edge object is attached to another live link
+      bool r = false;
+      try { if (how == 0) obs.addSon(nobj[F], nobj[S], e); else if (how == 1) obs.addFather(nobj[S], nobj[F], e); else obs.link(nobj[F], nobj[S], e); } catch (bpp::Exception&) { r = true; }
+      if (r) ctx.fault("reject@k");
+      adopt("dag-" + op + "-attached-object"); edited(op + "-attached-object");
+      if (r) ctx.rejected(); else ctx.outcome("silent");
+      return;
+    }
     try { if (how == 0) obs.addSon(nobj[F], nobj[S], e); else if (how == 1) obs.addFather(nobj[S], nobj[F], e); else obs.link(nobj[F], nobj[S], e); }
     catch (bpp::Exception&) { fail("model-mismatch:dag-" + op, "model-mismatch:dag-" + op + ":raised", op + " raised"); }
-    std::vector<MEdge> pred = m.edges; MEdge ne; ne.a = F; ne.b = S; ne.lib = lib; ne.obj = idOf(e); pred.push_back(ne);
+    std::vector<MEdge> pred = m.edges; MEdge ne; ne.a = F; ne.b = S; ne.lib = NOLIB; ne.obj = idOf(e); pred.push_back(ne);
     edited(op); sync(pred, "dag-" + op);
-    if (how == 2 || e) noteSlots(F, S);      // observer-level link (directly, or as the fallback for an unknown edge object)
     checkLinkObject(F, S, e, "dag-" + op);
     if (e && how != 2) ctx.probe("dag-edge-object-attached");
     ctx.ok();
@@ -842,7 +841,7 @@ public:
         EP e = (o.c & 1) ? mkEdge() : EP();
         obs.createNode(nobj[par], nobj[id], e); m.nodes.insert(id);
         std::vector<MEdge> pred = m.edges; MEdge ne; ne.a = par; ne.b = id; ne.lib = NOLIB; ne.obj = idOf(e); pred.push_back(ne);
-        edited("newson"); sync(pred, "dag-newson"); noteSlots(par, id); checkLinkObject(par, id, e, "dag-newson"); ctx.ok();
+        edited("newson"); sync(pred, "dag-newson"); checkLinkObject(par, id, e, "dag-newson"); ctx.ok();
       });
     } else if (k == "addson") { edit(o, [&] { addLink(o, 0); });
     } else if (k == "addfather") { edit(o, [&] { addLink(o, 1); });
@@ -896,7 +895,12 @@ public:
         if (acyc) {   // below-node queries: must return or raise bpp::Exception
           try { obs.getBelowNodes(nv); } catch (bpp::Exception&) {}
           edgeObjectQuery([&] { try { obs.getBelowEdges(nv); } catch (bpp::Exception&) {} });
-          try { obs.getLeavesUnderNode(nv); } catch (bpp::Exception&) {}
+          {   // leaves under a node: the nodes without son that can be reached from it
+            std::set<int> seen, want; std::vector<int> st(1, v); seen.insert(v);
+            while (!st.empty()) { int x = st.back(); st.pop_back(); std::vector<int> ss = m.sons(x); if (ss.empty()) want.insert(x); for (int y : ss) if (seen.insert(y).second) st.push_back(y); }
+            std::set<int> gotL; for (auto& q : obs.getLeavesUnderNode(nv)) gotL.insert(idOf(q));
+            if (gotL != want) fail("model-mismatch:dag-getLeavesUnderNode", "model-mismatch:dag-getLeavesUnderNode:after-" + lastEdit, "node " + std::to_string(v) + " leaves " + vecStr(std::vector<int>(gotL.begin(), gotL.end())) + ", reference " + vecStr(std::vector<int>(want.begin(), want.end())));
+          }
           warm = true;
         }
       }
@@ -932,13 +936,12 @@ public:
                      "topology edits other than node creation and link addition are generated only while the container is rooted (directed); un-rooted containers are read, extended and re-rooted",
                      "structural queries are compared with the reference only on a valid rooted tree; on an invalid rooted tree father/sons/branches/subtree queries must merely return or raise bpp::Exception, on an un-rooted tree only father/sons/branches are issued (getSubtreeNodes/Edges on a valid un-rooted tree recurse without end); path, MRCA and leaves-under queries are not issued on invalid or un-rooted trees (the statement gives them no meaning; the unguarded library loops run forever on cycles and read out of bounds across components)",
                      "validity is not read while the container has no node (the quantifier starts at one node)",
-                     "in kRecip runs, while a reciprocal link exists, rootAt and subtree queries are not issued (the library takes the graph for a tree and recurses without end: same root cause as the known finding)",
                      "isValid() with a root that designates no live node (root deleted): false or bpp::Exception accepted",
                      "isRooted() is read as part of the schedule but not compared (the statement fixes the validity predicate only)",
                      "setFather on a node that already has several fathers, removal of an absent son, re-rooting an invalid tree, unRoot(joinRootSons=true), unRoot with reciprocal links, DAG rootAt: outcome (return or bpp::Exception) and resulting links are taken from the container",
-                     "an edge object is handed to tree addSon/setFather after associateEdge with the id of an edge that existed earlier and is attached to no link now (the only way the tree observer accepts one); brand-new objects only in runs flagged kFreshEdge",
-                     "DAG: validity == acyclicity of the reported link set; below-node/leaf queries only have to return or raise; at least one node is kept",
-                     "known-finding triggers are generated only in runs whose plan sets the corresponding flag (about 1 run in 50 each): kSetRoot, kMrca, kLeaves, kRecip, kUnrooted, kFreshEdge, kEdgeSlots"};
+                     "addSon/setFather/addFather with an edge object that is attached to another live link: outcome (bpp::Exception expected) and resulting links are taken from the container (tree setFather removes the old father link before it raises)",
+                     "DAG: validity == acyclicity of the reported link set; getLeavesUnderNode is compared as a set with the son-less nodes reachable from the node; below-node queries only have to return or raise; at least one node is kept",
+                     "triggers of open known findings are generated only in runs whose plan sets the corresponding flag (about 1 run in 50 each); all six C15 findings (setRoot cache, reciprocal link, single-son leaves, MRCA depths, un-rooted rootAt, new edge object) are fixed, so their triggers are generated at full rate (table HAZARDS)"};
     return i;
   }
   long defaultRuns(Tier t) const override { return t == QUICK ? 60000 : 1000000; }
@@ -983,7 +986,7 @@ public:
       if (!bySetFather) for (long i = 1; i < n; ++i) p.ops.push_back(Op("newson", par[static_cast<size_t>(i)], 0, i & 1, rd));
       else {
         for (long i = 1; i < n; ++i) p.ops.push_back(Op("new", 0, 0, 0, rd));
-        for (long i = n - 1; i >= 1; --i) p.ops.push_back(Op("setfather", i, par[static_cast<size_t>(i)], 0, rd));
+        for (long i = n - 1; i >= 1; --i) p.ops.push_back(Op("setfather", i, par[static_cast<size_t>(i)], (i & 1) ? 2 : 0, rd));
       }
       p.ops.push_back(Op("qall", 0, 0, 1, 7));
       p.ops.push_back(Op("unroot", 0, 0, 0, rd));
@@ -1024,12 +1027,10 @@ public:
     p.cfg["off"] = rng.below(64);
     long maxn = dag ? rng.range(2, 6) : rng.pick(std::vector<long>{3, 4, 5, 6, 7, 8, 10, 12});
     p.cfg["maxn"] = maxn;
-    static const char* FL[] = {"kSetRoot", "kMrca", "kLeaves", "kRecip", "kUnrooted", "kFreshEdge"};
-    if (!dag) for (const char* f : FL) if (rng.chance(0.02)) p.cfg[f] = 1;
-    if (rng.chance(0.02)) p.cfg["kEdgeSlots"] = 1;
+    if (!dag) for (const Hazard& h : HAZARDS) if (!h.fixed && rng.chance(0.02)) p.cfg[h.flag] = 1;
     double earlyP = rng.pick(std::vector<double>{0.0, 0.3, 0.6, 1.0}), lateP = rng.pick(std::vector<double>{0.5, 0.9, 1.0});
     auto rd = [&]() { return (rng.chance(earlyP) ? 1L : 0L) | (rng.chance(lateP) ? 2L : 0L) | (rng.chance(0.2) ? 4L : 0L); };
-    auto edgeMode = [&]() { long mode = static_cast<long>(rng.weighted(std::vector<double>{0.5, 0.3, 0.2})); return mode | (rng.chance(0.6) ? 4L : 0L) | (rng.below(8) << 4); };
+    auto edgeMode = [&]() { long mode = static_cast<long>(rng.weighted(std::vector<double>{0.45, 0.1, 0.45})); return mode | (rng.chance(0.6) ? 4L : 0L) | (rng.below(8) << 4); };
     long n0 = rng.range(1, maxn);
     if (dag) {
       for (long i = 0; i < n0; ++i) { if (i > 0 && rng.chance(0.5)) p.ops.push_back(Op("newson", rng.below(16), 0, rng.below(2), rd())); else p.ops.push_back(Op("new", 0, 0, 0, rd())); }
